@@ -1219,8 +1219,19 @@ func checkStaleStateReads(p *Program, r *Report, models []*Model) {
 				for ei, e := range phi.Edges {
 					if ei < len(l.Header.Preds) && !l.Blocks[l.Header.Preds[ei]] {
 						for _, o := range origins(e) {
-							if _, isState := states[o]; isState {
+							if nm, isState := states[o]; isState {
 								carried[o] = true
+								// the value the carried variable starts from, where that is not the argument itself (the
+								// argument converted before the loop, `snapshot := store` taken above the loop): inside the
+								// loop it is the state as it was on entry just the same
+								if ei2, isInstr := e.(ssa.Instruction); isInstr && e != o && ei2.Block() != nil && !l.Blocks[ei2.Block()] {
+									if _, isConst := e.(*ssa.Const); !isConst {
+										if _, had := states[e]; !had {
+											states[e] = nm
+										}
+										carried[e] = true
+									}
+								}
 							}
 						}
 					}
